@@ -629,6 +629,7 @@ def run(ctx):
     # ... and with the Lean model of the distribution-level memoisation (PGModel/Memo.lean, driver command `memo`): hit/miss
     # pattern of functools.cache / cached_property and every answer against a fresh object
     check.pmap(ctx, 'props.corr_models', 'one_memo', list(range(16 if q else 160)), case_timeout=600)
+    check.pmap(ctx, 'props.corr_models', 'one_epochkey', list(range(8 if q else 80)), case_timeout=300)
     # ... and with the Lean model of state-space sharing in Inference.get_coal (PGModel/Share.lean, driver command `share`)
     check.pmap(ctx, 'props.corr_models', 'one_share', list(range(16 if q else 120)), case_timeout=600)
     # the pool comparison runs in this process (a pool inside a pool worker is not allowed), one after the other
